@@ -60,6 +60,7 @@ fn charset(sp: &Spec) -> Vec<u8> {
 fn lengths(cid: Cid, t: Tier) -> Vec<usize> {
     let bits = cid.bits();
     let mut v = wb_lengths(bits, t.pick(2, 3));
+    v.extend(long_lengths(bits));
     if t.thorough() {
         v.extend(0..=(128 / bits + 2));
         v.sort();
